@@ -19,4 +19,6 @@ instance : ToString Err := ⟨Err.toString⟩
 
 abbrev R := Except Err
 
+deriving instance DecidableEq for Except
+
 end Richchk
